@@ -48,13 +48,16 @@ def run_history(seed, profile="general", n_bundles=20, invalid_prob=0.15, undo_p
         if e3 is None:
           live.append((len(rec.events), r3['undo']))
       elif e2 is not None:
-        # undo raised: the bundle is still applied (C04), keep it live
-        live.append((idx, reply['undo']))
+        # undo raised (reported as C01.applies): the bundle is still applied (C04); its undo is known not
+        # to work, so older bundles cannot be unwound through it: start a new unwinding base here
+        live = []
     else:
       live.append((idx, reply['undo']))
 
   for idx, undo in reversed(live):
-    rec.bundle([['ApplyUndoActions', undo]], tag="undo", of=idx)
+    _, _, e = rec.bundle([['ApplyUndoActions', undo]], tag="undo", of=idx)
+    if e is not None:
+      break      # the undo itself failed (C01.applies): older snapshots no longer correspond
   return rec
 
 
